@@ -69,7 +69,10 @@ def plan(tier, seed):
         kinds = {"random": 400000, "overlapping": 80000, "adversarial": 80000, "exact": 120000}
         per = 10000
     out += common.shards(kinds, per_shard=per, tier=tier, seed=seed)
-    return out
+    _out = out
+    if tier == "thorough":
+        _out = _out + [common.suite_shard(ID, tier, seed)]  # the repository's own tests under this monitor
+    return _out
 
 
 def install_invariant(rec):
@@ -191,6 +194,9 @@ def sentinels(rec):
 
 
 def run_shard(spec, rec):
+    if spec["kind"] == "suite":
+        common.run_suite(ID, rec)
+        return
     from droplets import droplet_tracks
 
     install_invariant(rec)
